@@ -1,9 +1,11 @@
 import Driver.Util
 import Driver.Ops.Integer
+import Driver.Ops.Real
 open Driver
 
 def handlers : List Handler := [
-  Driver.Ops.Integer.run
+  Driver.Ops.Integer.run,
+  Driver.Ops.Real.run
 ]
 
 def step (line : String) : String :=
